@@ -241,6 +241,30 @@ def many_shots(chk, bh, M, rng):
         chk.violation("cirq:sampled:many-shots", bad, {"kind": "sampled", "bh": bh, "M": M, "shots": shots})
 
 
+def empty_circuit_initial_state(chk, bh, M, bname):
+    """A circuit without gates and a user-supplied initial state: the outcome distribution is |psi_i|^2 with bitstrings
+    listing qubit 0 first, and the returned statevector is the supplied one (in the advertised index order)."""
+    from tangelo.linq import Circuit
+    n = bh["n"]
+    t = [to_complex(e, M) for e in bh["t"]]          # any exact state of the spec serves as the user's initial state
+    sim = backend(bname)
+    v = t if sim.statevector_order == "lsq_first" else reorder(t, n)
+    try:
+        freqs, sv = sim.simulate(Circuit(n_qubits=n), return_statevector=True, initial_statevector=np.array(v, dtype=complex))
+    except Exception as e:
+        chk.violation("%s:empty-circuit+initial-state:exception" % bname, "%s: %s" % (type(e).__name__, str(e)[:200]),
+                      {"kind": "empty", "backend": bname, "bh": bh, "M": M})
+        return
+    sv = [complex(x) for x in np.array(sv).astype(complex).ravel()]
+    if sim.statevector_order != "lsq_first":
+        sv = reorder(sv, n)
+    fz = {k: complex(f).real for k, f in freqs.items()}
+    bad = judge_result(t, n, fz, sv)
+    chk.add_traces(1, "empty_circuit_initial_state_%s" % bname)
+    if bad:
+        chk.violation("%s:empty-circuit+initial-state" % bname, bad, {"kind": "empty", "backend": bname, "bh": bh, "M": M})
+
+
 def check_transitions(chk, trs, M, bname, part):
     n_ok = n_ref = 0
     for tr in trs:
@@ -379,6 +403,9 @@ def run(chk):
                 sampled_mode(chk, bh, 8, rng)
             if i == 1 and bh["n"] <= 2:
                 many_shots(chk, bh, 8, rng)
+            if i % (4 if quick else 2) == 0:
+                empty_circuit_initial_state(chk, bh, 8, "cirq")
+                empty_circuit_initial_state(chk, bh, 8, "sympy")
         if bhs:
             chk.sample({"behaviour": {"n": bhs[0]["n"], "src": bhs[0]["src"], "gates": bhs[0]["gates"]}})
     chk.part("behaviours", count=n_bh)
